@@ -398,4 +398,111 @@ theorem read_sim2 : ∀ (fuel : Nat) (s : FState) (d' : Dict) (n : Nat), DR s d'
         rw [q1]
         exact ih _ d2 n q2
 
+/-! ### the API -/
+
+open Compress.Proofs.FlateApi
+
+/-- `r` with the window `d'` in place of its own. -/
+def withDict (r : Reader) (d' : Dict) : Reader := { r with core := { r.core with dict := d' } }
+
+theorem latchBound_swap (x : FState) (e : Option FErr) (d2 : Dict) (h : DR x d2) :
+    latchBound { x with dict := d2 } e = { latchBound x e with dict := d2 } ∧ DR (latchBound x e) d2 := by
+  cases e with
+  | none => exact ⟨rfl, h⟩
+  | some e => exact ⟨rfl, h⟩
+
+theorem api_read_sim (r : Reader) (d' : Dict) (h : DR r.core d') (n : Nat) :
+    ∃ d2, (withDict r d').read n = (withDict (r.read n).1 d2, (r.read n).2) ∧ DR (r.read n).1.core d2 := by
+  by_cases hd : r.done = true
+  · rw [read_done r hd, read_done (withDict r d') hd]
+    exact ⟨d', rfl, h⟩
+  · have hd : r.done = false := by simpa using hd
+    rw [read_open r hd, read_open (withDict r d') hd]
+    obtain ⟨d2, q1, q2⟩ := read_sim2 (readFuel r.core) r.core d' n h
+    have q1' : Impl.read (readFuel (withDict r d').core) (withDict r d').core n =
+        ({ (Impl.read (readFuel r.core) r.core n).1 with dict := d2 }, (Impl.read (readFuel r.core) r.core n).2) := q1
+    rw [q1']
+    obtain ⟨l1, l2⟩ := latchBound_swap _ (Impl.read (readFuel r.core) r.core n).2.2 d2 q2
+    simp only
+    rw [l1]
+    exact ⟨d2, rfl, l2⟩
+
+theorem api_close_sim (r : Reader) (d' : Dict) (h : DR r.core d') :
+    ∃ d2, (withDict r d').close = (withDict (r.close).1 d2, (r.close).2) ∧ DR (r.close).1.core d2 := by
+  have he : (withDict r d').err = r.err := rfl
+  have hdn : (withDict r d').done = r.done := rfl
+  rw [close_eq, close_eq, he, hdn]
+  by_cases c : r.err = some .eof ∨ r.done = true
+  · simp only [if_pos c]
+    exact ⟨d', rfl, h⟩
+  · simp only [if_neg c]
+    exact ⟨d', rfl, h⟩
+
+theorem run_sim (ops : List Api.Op) (hn : ∀ op ∈ ops, op.noReset = true) : ∀ (r : Reader) (d' : Dict), DR r.core d' →
+    (Reader.run (withDict r d') ops).2 = (Reader.run r ops).2 ∧
+    ∃ d2, (Reader.run (withDict r d') ops).1 = withDict (Reader.run r ops).1 d2 := by
+  induction ops with
+  | nil => intro r d' _; exact ⟨rfl, d', rfl⟩
+  | cons op ops ih =>
+    intro r d' h
+    have ih' := ih (fun o ho => hn o (List.mem_cons_of_mem _ ho))
+    cases op with
+    | read n =>
+      obtain ⟨d2, q1, q2⟩ := api_read_sim r d' h n
+      obtain ⟨i1, d3, i2⟩ := ih' (r.read n).1 d2 q2
+      simp only [Reader.run, Reader.step, q1, i1, i2]
+      exact ⟨trivial, d3, rfl⟩
+    | close =>
+      obtain ⟨d2, q1, q2⟩ := api_close_sim r d' h
+      obtain ⟨i1, d3, i2⟩ := ih' (r.close).1 d2 q2
+      simp only [Reader.run, Reader.step, q1, i1, i2]
+      exact ⟨trivial, d3, rfl⟩
+    | reset src => have := hn (.reset src) (List.mem_cons_self ..); simp [Op.noReset] at this
+
+theorem DR_initOver (bits : Bits) (c c' : Nat) (st st' : Array UInt8)
+    (hc : (if c = 0 then 4096 else c) = (if c' = 0 then 4096 else c')) :
+    DR { bits := bits, total := bits.length, dict := Dict.initOver maxHistSize c st }
+      (Dict.initOver maxHistSize c' st') := by
+  refine ⟨[], [], ⟨rfl, ?_, rfl, rfl, Inv.initOver 32768 c st (by omega), Inv.initOver 32768 c' st' (by omega)⟩,
+    fun h => by cases h⟩
+  show (Dict.initOver maxHistSize c' st').cap = (Dict.initOver maxHistSize c st).cap
+  unfold Dict.initOver
+  by_cases h0 : c = 0 <;> by_cases h1 : c' = 0 <;> simp [h0, h1, initSize] at hc ⊢ <;> omega
+
+theorem DR_init (bits : Bits) (c' : Nat) (st' : Array UInt8) (hc : c' = 0 ∨ c' = 4096) :
+    DR (Impl.init bits) (Dict.initOver maxHistSize c' st') := by
+  refine ⟨[], [], ⟨rfl, ?_, rfl, rfl, Inv.init 32768 0 (by omega), Inv.initOver 32768 c' st' (by omega)⟩,
+    fun h => by cases h⟩
+  show (Dict.initOver maxHistSize c' st').cap = (Dict.init maxHistSize 0).cap
+  unfold Dict.initOver Dict.init
+  rcases hc with h | h <;> simp [h, initSize]
+
+/-- **after Reset, the earlier history shows through the retained window capacity only**: two
+    readers reset onto the same source from ANY two states with the same window capacity answer
+    every sequence of Reads and Closes identically, call by call, and agree on both counters. -/
+theorem reset_cap_only (r0 r1 : Reader) (src : Src) (ops : List Api.Op) (hn : ∀ op ∈ ops, op.noReset = true)
+    (hc : r1.core.dict.cap = r0.core.dict.cap) :
+    (Reader.run (r1.reset src) ops).2 = (Reader.run (r0.reset src) ops).2 ∧
+    (Reader.run (r1.reset src) ops).1.outputOffset = (Reader.run (r0.reset src) ops).1.outputOffset ∧
+    (Reader.run (r1.reset src) ops).1.inputOffset = (Reader.run (r0.reset src) ops).1.inputOffset := by
+  have e : r1.reset src = withDict (r0.reset src) (Dict.initOver maxHistSize r1.core.dict.cap r1.core.dict.hist) := rfl
+  rw [e]
+  obtain ⟨a, d2, b⟩ := run_sim ops hn (r0.reset src) _
+    (DR_initOver src.bits r0.core.dict.cap r1.core.dict.cap r0.core.dict.hist r1.core.dict.hist (by rw [hc]))
+  rw [a, b]
+  exact ⟨rfl, rfl, rfl⟩
+
+/-- **Reset = new for every call sequence**, provided the window buffer never grew (its capacity
+    is still the initial 4096, or it was never allocated). -/
+theorem reset_fresh_general (r0 : Reader) (src : Src) (ops : List Api.Op) (hn : ∀ op ∈ ops, op.noReset = true)
+    (hc : r0.core.dict.cap = 0 ∨ r0.core.dict.cap = 4096) :
+    (Reader.run (r0.reset src) ops).2 = (Reader.run (newReader src) ops).2 ∧
+    (Reader.run (r0.reset src) ops).1.outputOffset = (Reader.run (newReader src) ops).1.outputOffset ∧
+    (Reader.run (r0.reset src) ops).1.inputOffset = (Reader.run (newReader src) ops).1.inputOffset := by
+  have e : r0.reset src = withDict (newReader src) (Dict.initOver maxHistSize r0.core.dict.cap r0.core.dict.hist) := rfl
+  rw [e]
+  obtain ⟨a, d2, b⟩ := run_sim ops hn (newReader src) _ (DR_init src.bits r0.core.dict.cap r0.core.dict.hist hc)
+  rw [a, b]
+  exact ⟨rfl, rfl, rfl⟩
+
 end Compress.Proofs.FlateApiReset
